@@ -515,4 +515,277 @@ let () =
         secoff_case emit (rand_bool r) ver (rand_bool r) name form (gen_addend_u r fw) (rand_bool r) (gen_addend_u r fw) (rand_int r 5 <> 0)
       done)
 
+
+(* ------------------------------------------------------------------ c18.parsers: the real parsers in the monad *)
+(* c18.parsers be owed <kind> <params…> <section hex> <nrel> <rel>…
+   kinds:  line asz0 | attr ver fmt asz name form implicit foff | rle asz | lle ver asz | locbare asz |
+           aranges | pubnames
+   Model = RelocPar.<parser>; owed = the (dynamic) side condition of parser_reloc; the static side condition of
+   parser_reloc_static (field map of the applied section) is evaluated too and must imply it. *)
+open RelocPar
+
+let uleb (v : int) : int list =
+  let rec go v = let b = v land 0x7f in let v = v lsr 7 in if v = 0 then [b] else (b lor 0x80) :: go v in go v
+let sleb (v : int) : int list =
+  let rec go v =
+    let b = v land 0x7f in let v' = v asr 7 in
+    if (v' = 0 && b land 0x40 = 0) || (v' = -1 && b land 0x40 <> 0) then [b] else (b lor 0x80) :: go v' in go v
+
+let cstr r = List.init (rand_int r 4) (fun _ -> 0x61 + rand_int r 26) @ [0]
+
+(* relocation sets chosen from the parser's own field map on the raw bytes: mostly on relocatable fields, sometimes
+   on a plainly read span, plus the perturbations of gen_rels (wrong width, misplaced, overlapping, out of range,
+   addends that overflow the field) *)
+let gen_rels_for r be (p : BinNums.coq_N list prog) (l : int list) =
+  let bs = bytes_of_ints l in
+  let tr = field_trace be true BinNums.N0 p bs in
+  let rel = List.map (fun (a, b) -> (int_of_n a, int_of_n b)) (field_sites tr) in
+  let plain = List.filter_map (function EvPlain (pos, n) when int_of_n n > 0 -> Some (int_of_n pos, int_of_n n) | _ -> None) tr in
+  let rs = gen_rels r rel (List.length l) in
+  let on_plain =
+    if plain <> [] && rand_int r 5 = 0 then
+      let (pos, n) = List.nth plain (rand_int r (List.length plain)) in
+      let w = pick r sizes_good in
+      [mk_rrel (pos + rand_int r n) w (rand_bool r) (gen_addend_u r w)]
+    else [] in
+  (* a relocated terminator / selector value now and then: explicit small addends *)
+  let rs = List.map (fun (x : rrel) -> if rand_int r 9 = 0 then { x with rr_impl = false; rr_add = n_of_int (rand_int r 3) } else x) rs in
+  rs @ on_plain
+
+let damage2 r l = if rand_bool r then l else damage r l
+
+let parsers_case emit be kind params (l : int list) (rs : rrel list) (p : BinNums.coq_N list prog) =
+  let bs = bytes_of_ints l in
+  let (owed, _, _, _) = model_both ~full:false be true rs bs p in
+  let st = static_okb be true BinNums.N0 rs p bs in
+  if st && not owed then failwith "c18.parsers: static side condition holds but the dynamic one does not";
+  let case = Printf.sprintf "c18.parsers %s %s %s%s %s %s" (bit be) (bit owed) kind
+      (String.concat "" (List.map (fun x -> " " ^ x) params)) (hex_of_ints l) (rels_tokens rs) in
+  both emit case (fun dbg ->
+    let (_, rr, pr, s) = model_both ~full:false be dbg rs bs p in
+    Printf.sprintf "r %s p %s s %s" rr pr s)
+
+(* ---- .debug_line ---- *)
+let gen_line r be =
+  let fmt64 = rand_int r 4 = 0 in
+  let w = if fmt64 then 8 else 4 in
+  let ver = match rand_int r 12 with 0 -> pick r [| 0; 1; 6 |] | 1 | 2 | 3 | 4 -> 5 | _ -> 2 + rand_int r 3 in
+  let asz0 = if rand_int r 15 = 0 then pick r [| 1; 2; 3; 0 |] else pick r [| 4; 8 |] in
+  let asz = if ver >= 5 then (if rand_int r 15 = 0 then pick r [| 0; 3; 1; 2 |] else pick r [| 4; 8 |]) else asz0 in
+  let aw = if List.mem asz [1; 2; 4; 8] then asz else 4 in
+  let opcode_base = match rand_int r 6 with 0 -> 10 | 1 -> 14 | 2 -> 15 | _ -> 13 in
+  let lens = List.filteri (fun i _ -> i < opcode_base - 1) [0; 1; 1; 1; 1; 0; 0; 0; 1; 0; 0; 1; 2; 1] in
+  let pre = [1] @ (if ver >= 4 then [1] else []) @ [rand_int r 2; 0xfb; 14; opcode_base] @ lens in
+  let tables =
+    if ver <= 4 then
+      List.concat (List.init (rand_int r 3) (fun _ -> (0x64 :: cstr r))) @ [0]
+      @ List.concat (List.init (rand_int r 3) (fun _ -> (0x66 :: cstr r) @ uleb (rand_int r 3) @ uleb (rand_int r 300) @ uleb (rand_int r 70000))) @ [0]
+    else begin
+      let strform () = pick r [| 0x08; 0x1f; 0x0e; 0x1d; 0x1f; 0x1f21; 0x25; 0x1a |] in
+      let value form = match form with
+        | 0x08 -> cstr r
+        | 0x1f | 0x0e | 0x1d | 0x1f21 | 0x17 -> enc be (Z.of_int (rand_int r 4000)) w
+        | 0x25 | 0x0b | 0x0c -> [rand_int r 256] | 0x05 -> enc be (Z.of_int (rand_int r 60000)) 2
+        | 0x1a | 0x0f -> uleb (rand_int r 70000) | 0x0d -> sleb (rand_int r 400 - 200)
+        | 0x06 -> enc be (Z.of_int (rand_int r 100000)) 4 | 0x07 -> enc be (rand_z64 r) 8
+        | 0x1e -> rand_bytes r 16
+        | 0x0a -> let k = pick r [| 16; 3; 0 |] in k :: rand_bytes r k
+        | 0x09 -> let k = pick r [| 16; 2 |] in uleb k @ rand_bytes r k
+        | _ -> rand_bytes r 2 in
+      let dfmt = [(1, strform ())] @ (if rand_int r 4 = 0 then [(rand_int r 7, pick r [| 0x0f; 0x0b; 0x08 |])] else []) in
+      let ffmt = [(1, strform ()); (2, pick r [| 0x0f; 0x0b; 0x05; 0x0d |])]
+                 @ (if rand_bool r then [(5, pick r [| 0x1e; 0x1e; 0x0a; 0x09; 0x0f |])] else [])
+                 @ (if rand_int r 3 = 0 then [(pick r [| 3; 4 |], pick r [| 0x0f; 0x06; 0x07; 0x0a |])] else [])
+                 @ (if rand_int r 4 = 0 then [(0x2001, pick r [| 0x1f; 0x08; 0x0e |])] else [])
+                 @ (if rand_int r 10 = 0 then [(1, 0x08)] else []) in
+      let ffmt = if rand_int r 12 = 0 then List.tl ffmt else ffmt in
+      let put fm cnt =
+        [List.length fm] @ List.concat_map (fun (ct, f) -> uleb ct @ uleb f) fm @ uleb cnt
+        @ List.concat (List.init cnt (fun _ -> List.concat_map (fun (_, f) -> value f) fm)) in
+      put dfmt (rand_int r 3) @ put ffmt (rand_int r 3)
+    end in
+  let header_rest = pre @ tables in
+  let instr () = match rand_int r 14 with
+    | 0 | 1 | 2 -> [0] @ uleb (1 + aw) @ [2] @ enc be (Z.of_int (0x1000 * rand_int r 100)) aw
+    | 3 -> [0; 1; 1]
+    | 4 -> [2] @ uleb (rand_int r 300) | 5 -> [3] @ sleb (rand_int r 100 - 50)
+    | 6 -> [9] @ enc be (Z.of_int (rand_int r 60000)) 2
+    | 7 -> let d = uleb (rand_int r 200) in [0] @ uleb (1 + List.length d) @ [4] @ d
+    | 8 -> let body = (0x67 :: cstr r) @ uleb 1 @ uleb 2 @ uleb 3 in [0] @ uleb (1 + List.length body) @ [3] @ body
+    | 9 -> let k = rand_int r 4 in [0] @ uleb (1 + k) @ [0x80 + rand_int r 3] @ rand_bytes r k
+    | 10 -> [13] @ uleb 5 @ uleb 300 | 11 -> [pick r [| 1; 4; 5; 6; 7; 8; 10; 11; 12 |]] @ uleb (rand_int r 9)
+    | 12 -> [0] @ uleb (aw + rand_int r 3) @ [2] @ rand_bytes r (aw + 1)
+    | _ -> [20 + rand_int r 200] in
+  let prog = List.concat (List.init (rand_int r 7) (fun _ -> instr ())) in
+  let hl = List.length header_rest in
+  let hl = match rand_int r 14 with 0 -> hl + 1 + rand_int r 3 | 1 -> max 0 (hl - 1 - rand_int r 3) | _ -> hl in
+  let body = enc be (Z.of_int ver) 2 @ (if ver >= 5 then [asz; (if rand_int r 20 = 0 then 1 else 0)] else [])
+             @ enc be (Z.of_int hl) w @ header_rest @ prog in
+  let len = List.length body in
+  let len = match rand_int r 14 with 0 -> len + 1 + rand_int r 3 | 1 -> max 0 (len - 1 - rand_int r 4) | _ -> len in
+  let il = if fmt64 then enc be (Z.of_string "0xffffffff") 4 @ enc be (Z.of_int len) 8 else enc be (Z.of_int len) 4 in
+  (asz0, il @ body @ rand_bytes r (rand_int r 3))
+
+(* ---- attributes ---- *)
+let all_forms = [| 0x01; 0x03; 0x04; 0x05; 0x06; 0x07; 0x08; 0x09; 0x0a; 0x0b; 0x0c; 0x0d; 0x0e; 0x0f; 0x10; 0x11; 0x12;
+                   0x13; 0x14; 0x15; 0x16; 0x17; 0x18; 0x19; 0x1a; 0x1b; 0x1c; 0x1d; 0x1e; 0x1f; 0x20; 0x21; 0x22; 0x23;
+                   0x24; 0x25; 0x26; 0x27; 0x28; 0x29; 0x2a; 0x2b; 0x2c; 0x1f01; 0x1f02; 0x1f20; 0x1f21; 0x02; 0x2d; 0x1f03 |]
+let reloc_forms = [| 0x01; 0x0e; 0x10; 0x17; 0x1d; 0x1f; 0x1f20; 0x1f21; 0x06; 0x07 |]
+
+let attr_case emit r be ver fmt64 asz name form implicit (payload : int list) with_rels =
+  let w = if fmt64 then 8 else 4 in
+  let hdr = if ver >= 5 then enc be (Z.of_int ver) 2 @ [1; asz] @ enc be Z.zero w
+            else enc be (Z.of_int ver) 2 @ enc be Z.zero w @ [asz] in
+  let body = hdr @ [1] @ payload in
+  let il = if fmt64 then enc be (Z.of_string "0xffffffff") 4 @ enc be (Z.of_int (List.length body)) 8
+           else enc be (Z.of_int (List.length body)) 4 in
+  let l = il @ body in
+  let foff = List.length il + List.length hdr + 1 in
+  let e = { FormSpec.version = n_of_int ver; fmt64 = fmt64; address_size = n_of_int asz; be = be } in
+  let spec = { Attr.at_name = n_of_int name; at_form = n_of_int form; at_implicit = cz_of_int implicit } in
+  let p = PSkip (n_of_int foff, p_attr (nat_of_int (List.length l + 2)) e spec) in
+  let rs = match with_rels with
+    | `Gen -> List.filter (fun (x : rrel) -> int_of_n x.rr_pos >= foff) (gen_rels_for r be p l)
+    | `One (wd, impl, add) -> [mk_rrel foff wd impl add]
+    | `None -> [] in
+  parsers_case emit be "attr" [string_of_int ver; string_of_int w; string_of_int asz; string_of_int name;
+                               string_of_int form; string_of_int implicit; string_of_int foff] l rs p
+
+let gen_payload r be form w asz =
+  match form with
+  | 0x08 -> cstr r @ rand_bytes r 2
+  | 0x0a -> let k = rand_int r 4 in (k :: rand_bytes r k) @ [7]
+  | 0x03 -> let k = rand_int r 4 in enc be (Z.of_int k) 2 @ rand_bytes r k
+  | 0x04 -> let k = rand_int r 4 in enc be (Z.of_int k) 4 @ rand_bytes r k
+  | 0x09 | 0x18 -> let k = rand_int r 4 in uleb k @ rand_bytes r k
+  | 0x16 -> uleb (pick r (if rand_bool r then reloc_forms else all_forms)) @ enc be (Z.of_int (rand_int r 5000)) 8 @ rand_bytes r 4
+  | 0x0d -> sleb (rand_int r 100000 - 50000) @ [1]
+  | 0x0f | 0x15 | 0x1a | 0x1b | 0x22 | 0x23 | 0x1f01 | 0x1f02 -> uleb (rand_int r 100000) @ [1]
+  | _ ->
+    ignore w; ignore asz;
+    (* fixed-size forms: a small value in the low bytes of a 16-byte field so that addends fit *)
+    (if rand_int r 6 = 0 then rand_bytes r 16 else enc be (Z.of_int (rand_int r 5000)) 8 @ enc be (Z.of_int (rand_int r 9)) 8) @ [3]
+
+(* ---- range / location lists ---- *)
+let gen_rle r be asz =
+  let aw = if List.mem asz [1; 2; 4; 8] then asz else 4 in
+  let addr () = enc be (Z.of_int (rand_int r 250)) aw in
+  let entry () = match rand_int r 10 with
+    | 0 -> [1] @ uleb (rand_int r 300) | 1 -> [2] @ uleb (rand_int r 300) @ uleb (rand_int r 300)
+    | 2 -> [3] @ uleb (rand_int r 300) @ uleb (rand_int r 300) | 3 -> [4] @ uleb (rand_int r 300) @ uleb (rand_int r 300)
+    | 4 | 5 -> [5] @ addr () | 6 | 7 -> [6] @ addr () @ addr () | 8 -> [7] @ addr () @ uleb (rand_int r 300)
+    | _ -> if rand_int r 4 = 0 then [8 + rand_int r 200] else [6] @ addr () @ addr () in
+  List.concat (List.init (rand_int r 5) (fun _ -> entry ())) @ (if rand_int r 5 = 0 then [] else [0]) @ rand_bytes r (rand_int r 3)
+
+let gen_lle r be ver asz =
+  let aw = if List.mem asz [1; 2; 4; 8] then asz else 4 in
+  let addr () = enc be (Z.of_int (rand_int r 250)) aw in
+  let data () = let k = rand_int r 4 in (if ver >= 5 then uleb k else enc be (Z.of_int k) 2) @ rand_bytes r k in
+  let entry () = match rand_int r 12 with
+    | 0 -> [1] @ uleb (rand_int r 300) | 1 -> [2] @ uleb (rand_int r 300) @ uleb (rand_int r 300) @ data ()
+    | 2 -> [3] @ uleb (rand_int r 300) @ (if ver >= 5 then uleb (rand_int r 300) else enc be (Z.of_int (rand_int r 300)) 4) @ data ()
+    | 3 -> [4] @ uleb (rand_int r 300) @ uleb (rand_int r 300) @ data () | 4 -> [5] @ data ()
+    | 5 | 6 -> [6] @ addr () | 7 | 8 -> [7] @ addr () @ addr () @ data () | 9 | 10 -> [8] @ addr () @ uleb (rand_int r 300) @ data ()
+    | _ -> if rand_int r 4 = 0 then [9 + rand_int r 200] else [7] @ addr () @ addr () @ data () in
+  List.concat (List.init (rand_int r 5) (fun _ -> entry ())) @ (if rand_int r 5 = 0 then [] else [0]) @ rand_bytes r (rand_int r 3)
+
+let gen_locbare r be asz =
+  let aw = if List.mem asz [1; 2; 4; 8] then asz else 4 in
+  let ones = Z.pred (Z.shift_left Z.one (8 * aw)) in
+  let entry () = match rand_int r 6 with
+    | 0 -> enc be ones aw @ enc be (Z.of_int (rand_int r 200)) aw
+    | 1 -> enc be Z.zero aw @ enc be Z.zero aw
+    | _ -> let k = rand_int r 4 in enc be (Z.of_int (rand_int r 200)) aw @ enc be (Z.of_int (1 + rand_int r 250)) aw @ enc be (Z.of_int k) 2 @ rand_bytes r k in
+  List.concat (List.init (rand_int r 4) (fun _ -> entry ())) @ (if rand_int r 4 = 0 then [] else List.init (2 * aw) (fun _ -> 0)) @ rand_bytes r (rand_int r 3)
+
+(* ---- .debug_aranges / .debug_pubnames ---- *)
+let gen_aranges r be =
+  let fmt64 = rand_int r 4 = 0 in
+  let w = if fmt64 then 8 else 4 in
+  let ver = if rand_int r 12 = 0 then pick r [| 0; 1; 4; 5 |] else pick r [| 2; 2; 3 |] in
+  let asz = if rand_int r 12 = 0 then pick r [| 0; 3; 16; 128 |] else pick r sizes_good in
+  let aw = if List.mem asz [1; 2; 4; 8] then asz else 4 in
+  let hl = (if fmt64 then 12 else 4) + 2 + w + 2 in
+  let pad = if hl mod (2 * aw) = 0 then 0 else 2 * aw - hl mod (2 * aw) in
+  let tuples = List.concat (List.init (rand_int r 4) (fun _ ->
+    if rand_int r 6 = 0 then List.init (2 * aw) (fun _ -> 0)
+    else enc be (Z.of_int (rand_int r 250)) aw @ enc be (Z.of_int (1 + rand_int r 250)) aw)) in
+  let body = enc be (Z.of_int ver) 2 @ enc be (Z.of_int (rand_int r 5000)) w @ [asz; (if rand_int r 20 = 0 then 4 else 0)]
+             @ List.init pad (fun _ -> 0) @ tuples @ (if rand_int r 4 = 0 then [] else List.init (2 * aw) (fun _ -> 0)) in
+  let len = List.length body in
+  let len = match rand_int r 12 with 0 -> len + 1 + rand_int r 3 | 1 -> max 0 (len - 1 - rand_int r 4) | _ -> len in
+  let il = if fmt64 then enc be (Z.of_string "0xffffffff") 4 @ enc be (Z.of_int len) 8 else enc be (Z.of_int len) 4 in
+  il @ body @ rand_bytes r (rand_int r 3)
+
+let gen_pubnames r be =
+  let set () =
+    let fmt64 = rand_int r 4 = 0 in
+    let w = if fmt64 then 8 else 4 in
+    let ver = if rand_int r 14 = 0 then pick r [| 0; 1; 3 |] else 2 in
+    let entries = List.concat (List.init (rand_int r 3) (fun _ -> enc be (Z.of_int (1 + rand_int r 250)) w @ cstr r)) in
+    let body = enc be (Z.of_int ver) 2 @ enc be (Z.of_int (rand_int r 5000)) w @ enc be (Z.of_int (rand_int r 5000)) w
+               @ entries @ (if rand_int r 4 = 0 then [] else enc be Z.zero w) in
+    let len = List.length body in
+    let len = match rand_int r 14 with 0 -> len + 1 + rand_int r 3 | 1 -> max 0 (len - 1 - rand_int r 4) | _ -> len in
+    (if fmt64 then enc be (Z.of_string "0xffffffff") 4 @ enc be (Z.of_int len) 8 else enc be (Z.of_int len) 4) @ body in
+  List.concat (List.init (1 + rand_int r 2) (fun _ -> set ())) @ (if rand_int r 5 = 0 then rand_bytes r 2 else [])
+
+let () =
+  register "c18.parsers" ~doc:"the gimli parsers written in the reader monad (line header + instructions, parse_attribute over the whole form table, rnglists/loclists/.debug_loc entries, aranges, pubnames) through RelocateReader vs plain reader on applied bytes vs the model; relocations drawn from the parser's own field map (relocatable fields, plainly read spans, misplaced/overlapping/out of range, overflowing addends); sites handed to Relocate compared"
+    (fun ~seed ~n emit ->
+      let r = mk_rng (seed + 77) in
+      (* grid: every form x versions x formats, a fitting relocation exactly on the field (width 4 and 8), and none *)
+      List.iter (fun be -> List.iter (fun ver -> List.iter (fun fmt64 ->
+        Array.iter (fun form ->
+          let asz = 8 in
+          let pl = gen_payload r be form (if fmt64 then 8 else 4) asz in
+          attr_case emit r be ver fmt64 asz 0x11 form 5 pl (`One (4, true, Z.of_int 0x1000));
+          attr_case emit r be ver fmt64 asz 0x11 form 5 pl (`One (8, false, Z.of_int 0x2468));
+          attr_case emit r be ver fmt64 4 0x02 form (-3) pl `None) all_forms)
+        [false; true]) [2; 3; 4; 5]) [false; true];
+      for _ = 1 to n do
+        let be = rand_bool r in
+        match rand_int r 16 with
+        | 0 | 1 | 2 | 3 | 4 ->
+          let (asz0, l) = gen_line r be in
+          let l = damage2 r l in
+          let p = p_line (nat_of_int (List.length l + 2)) (n_of_int asz0) in
+          parsers_case emit be "line" [string_of_int asz0] l (gen_rels_for r be p l) p
+        | 5 | 6 | 7 | 8 ->
+          let ver = 2 + rand_int r 4 in
+          let fmt64 = rand_int r 3 = 0 in
+          let asz = pick r sizes_good in   (* parse_unit_header rejects the others before any attribute is read *)
+          let form = if rand_int r 3 = 0 then pick r reloc_forms else pick r all_forms in
+          let name = if rand_int r 3 = 0 then List.nth secoff_names (rand_int r (List.length secoff_names)) else 1 + rand_int r 0x8b in
+          let pl = gen_payload r be form (if fmt64 then 8 else 4) asz in
+          let pl = if rand_int r 10 = 0 then List.filteri (fun i _ -> i < rand_int r (List.length pl + 1)) pl else pl in
+          attr_case emit r be ver fmt64 asz name form (rand_int r 200 - 100) pl `Gen
+        | 9 | 10 ->
+          let asz = if rand_int r 15 = 0 then pick r [| 0; 3; 16 |] else pick r sizes_good in
+          let l = damage2 r (gen_rle r be asz) in
+          let p = p_rnglist (nat_of_int (List.length l + 2)) (n_of_int asz) [] in
+          parsers_case emit be "rle" [string_of_int asz] l (gen_rels_for r be p l) p
+        | 11 | 12 ->
+          let asz = if rand_int r 15 = 0 then pick r [| 0; 3; 16 |] else pick r sizes_good in
+          if rand_int r 3 = 0 then begin
+            let l = damage2 r (gen_locbare r be asz) in
+            let p = p_loc_bare (nat_of_int (List.length l + 2)) (n_of_int asz) [] in
+            parsers_case emit be "locbare" [string_of_int asz] l (gen_rels_for r be p l) p
+          end else begin
+            let ver = if rand_int r 3 = 0 then 4 else 5 in
+            let l = damage2 r (gen_lle r be ver asz) in
+            let p = p_loclist (nat_of_int (List.length l + 2)) (n_of_int ver) (n_of_int asz) [] in
+            parsers_case emit be "lle" [string_of_int ver; string_of_int asz] l (gen_rels_for r be p l) p
+          end
+        | 13 | 14 ->
+          let l = damage2 r (gen_aranges r be) in
+          let p = p_aranges (nat_of_int (List.length l + 2)) in
+          parsers_case emit be "aranges" [] l (gen_rels_for r be p l) p
+        | _ ->
+          let l = damage2 r (gen_pubnames r be) in
+          let f = nat_of_int (List.length l + 2) in
+          let p = p_pubnames f f [] in
+          parsers_case emit be "pubnames" [] l (gen_rels_for r be p l) p
+      done)
+
 let init () = ()
